@@ -58,7 +58,7 @@ def solve_hungarian(
     n_cols = len(cost_matrix[0])
     n = max(n_rows, n_cols)
 
-    matrix = [[0.0] * n for _ in range(n)]
+    matrix = [[0] * n for _ in range(n)]
     for i in range(n_rows):
         for j in range(n_cols):
             matrix[i][j] = cost_matrix[i][j]
@@ -70,10 +70,10 @@ def solve_hungarian(
                 if i < n_rows and j < n_cols:
                     matrix[i][j] = max_val - cost_matrix[i][j]
                 else:
-                    matrix[i][j] = 0.0
+                    matrix[i][j] = 0
 
-    row_potential = [0.0] * (n + 1)
-    col_potential = [0.0] * (n + 1)
+    row_potential = [0] * (n + 1)
+    col_potential = [0] * (n + 1)
     col_match = [0] * (n + 1)
     augment_path = [0] * (n + 1)
 
@@ -126,7 +126,7 @@ def solve_hungarian(
         if col_match[j] != 0 and col_match[j] <= n_rows and j <= n_cols:
             assignment[col_match[j] - 1] = j - 1
 
-    total_cost = 0.0
+    total_cost = 0
     for i in range(n_rows):
         if assignment[i] != -1 and assignment[i] < n_cols:
             total_cost += cost_matrix[i][assignment[i]]
